@@ -20,6 +20,7 @@ Streams
             Gen/IdxCompare.v:compare_branch (translator unit idxcompare) behind Model/IdxCheckout.v:compare_change.
 Every case is judged by the oracle (independent of the model) and by the correspondence."""
 
+import json
 import os
 import re
 import stat
@@ -64,7 +65,25 @@ ASSUMPTIONS = [
 IMPORTS = ("From Coq Require Import NArith List.\n"
            "From DvcData Require Import Base.PyBase Gen.PyTypes Gen.IDiff Model.IdxCheckout.")
 
-NAMES = "abc"
+NAMES = ["a", "b", "c"]          # the name pool of the case being generated (set by gen_case)
+NAME_POOLS = [
+    (0.50, "plain", [["a", "b", "c"]]),
+    # siblings where one name is a STRING prefix of the other (a / a_raw / a.bak / aa): a path test without
+    # the trailing separator mistakes the sibling for a descendant
+    (0.25, "prefix-siblings", [["a", "a_raw", "b"], ["a", "a.bak", "aa"], ["b", "bb", "b c"], ["a", "ab", "a_"]]),
+    # unusual but legal POSIX names: backslash, space, non-ASCII, leading dot
+    (0.25, "unusual", [["a", "we\\ird", ".h"], ["s p", "\u00e9t\u00e9", "b"], ["a\\b", "a", "b"], [".a", "a", "x\\"]]),
+]
+
+
+def pick_names(rng):
+    r = rng.random()
+    acc = 0.0
+    for pr, label, pools in NAME_POOLS:
+        acc += pr
+        if r < acc:
+            return label, list(rng.choice(pools))
+    return "plain", ["a", "b", "c"]
 CONTENTS = ["", "A", "B", "C", "DD"]
 LITTER = re.compile(r"^\.[A-Za-z0-9_-]{22}\.tmp$")
 LINKS = {"copy": "Copy", "hardlink": "Hardlink", "symlink": "Symlink"}
@@ -83,11 +102,13 @@ def gen_tree(rng, depth=0, p_skip=0.35, maxdepth=2):
         if depth < maxdepth and r < 0.62:
             sub = gen_tree(rng, depth + 1, p_skip, maxdepth)
             if not sub:
-                if rng.random() < 0.4:
+                if rng.random() < 0.6:
                     t[n] = None  # empty directory
                 continue
             for k, v in sub.items():
                 t[n + "/" + k] = v
+        elif r > 0.94:
+            t[n] = None  # empty directory
         else:
             t[n] = (rng.choice(CONTENTS), rng.random() < 0.3)
     return t
@@ -119,9 +140,9 @@ def add_dangling(rng, prior, target):
         elif r < 0.45 and tdirs:
             k = rng.choice(tdirs)
         elif r < 0.7 and pdirs:
-            k = rng.choice(pdirs) + "/" + rng.choice(NAMES + "x")
+            k = rng.choice(pdirs) + "/" + rng.choice(NAMES + ["x"])
         else:
-            k = "/".join(rng.choice(NAMES + "x") for _ in range(rng.randint(1, 3)))
+            k = "/".join(rng.choice(NAMES + ["x"]) for _ in range(rng.randint(1, 3)))
         parts = k.split("/")
         if len(parts) > 4:
             continue
@@ -221,8 +242,12 @@ def gen_target_spec(rng, form, tree):
         for d in dirs_of(tree):  # explicit empty directories too
             if not any(d == l or d.startswith(l + "/") for l in lazy_roots):
                 need.add(d)
+        empties = {k for k, v in tree.items() if v is None}
         for d in sorted(need):
-            spec.append({"k": d, "t": "d"})
+            if d in empties and rng.random() < 0.4:
+                spec.append({"k": d, "t": "lazy", "tree": {}})   # a directory object with the listing []
+            else:
+                spec.append({"k": d, "t": "d"})
     return spec
 
 
@@ -347,7 +372,14 @@ def build_target(case, root, odb):
             _plant_once(odb, doid, impl.canon_listing(lst))
             new[k] = DataIndexEntry(key=k, meta=Meta(isdir=True), hash_info=HashInfo("md5", doid))
             tid = "t%d" % i
-            trees[tid] = (dict(e["tree"]), doid)
+            # what the directory object REALLY lists: its stored bytes, parsed here with json (not through
+            # dvc_data); the oracle's and the model's target come from this
+            with open(odb.oid_to_path(doid), "rb") as f:
+                stored = json.loads(f.read().decode("utf-8"))
+            by_oid = {impl.md5hex(c.encode()): c for c in CONTENTS}
+            listed = {ent["relpath"]: by_oid[ent["md5"]] for ent in stored}
+            assert listed == dict(e["tree"]), (listed, e["tree"])
+            trees[tid] = (listed, doid)
             mt.append((k, ("lazy", tid)))
     new.storage_map.add_cache(ObjectStorage((), odb))
     return new, mt, trees, contents
@@ -723,6 +755,12 @@ def scripted():
         ({}, {"a/b": A, "c": ("", True), "b/a/c": ("DD", True)}),    # from nothing
         ({"a": A, "b": A, "c/a": B}, {"a": ("A", True), "b": A, "c/a": ("A", False)}),  # shared content + chmod
     ]
+    pairs += [
+        ({}, {"a": None, "a_raw/x": A}),                             # empty dir + sibling with a prefix name
+        ({"k": A}, {"a/b": None, "a/b.bak": None, "a/bb/c": B, "k": A}),
+        ({}, {"d/we\\ird.txt": A, "d/s p": B, "d/.h/\u00e9": A}),       # backslash, space, leading dot, non-ASCII
+        ({"d/we\\ird.txt": A, "d/we/ird.txt": B}, {"d/we\\ird.txt": A}),
+    ]
     for prior, target in pairs:
         for form in ("build", "lazy-root", "mixed"):
             for link in ("copy", "hardlink", "symlink"):
@@ -755,7 +793,10 @@ def finish_case(ctx, case):
 
 
 def gen_case(ctx, form=None):
+    global NAMES  # noqa: PLW0603
     rng = ctx.rng
+    label, NAMES = pick_names(rng)
+    ctx.count("names:" + label)
     for _ in range(50):
         target = gen_tree(rng)
         if not consistent(target):
@@ -784,7 +825,7 @@ def gen_case(ctx, form=None):
     case = {"prior": prior, "target_tree": target, "form": form,
             "delete": True if form == "implicit" else rng.random() < 0.7,
             "link": rng.choice(["copy", "hardlink", "symlink"]), "cls": rng.choice(["local", "base"])}
-    if form in ("lazy-root", "mixed", "implicit"):
+    if form in ("lazy-root", "implicit"):
         target = {k: v for k, v in target.items() if v is not None}  # listings have no empty directories
         case["target_tree"] = target
     finish_case(ctx, case)
@@ -855,6 +896,15 @@ def judge(ctx, case, items, stream, retry_items=None):
         ctx.count("kind-change:file->dir:depth%d" % len(s.split("/")))
     for s in d2f:
         ctx.count("kind-change:dir->file:depth%d" % len(s.split("/")))
+    tnodes = set(files) | dirs | implicit
+    empty_dirs = [k for k in dirs if k and not any(n != k and n[:len(k)] == k for n in tnodes)]
+    if empty_dirs:
+        ctx.count("target:empty-directories", len(empty_dirs))
+    names = {"/".join(k[:i + 1]) for k in tnodes for i in range(len(k))}
+    if any(a != b and b.startswith(a) and not b.startswith(a + "/") for a in names for b in names):
+        ctx.count("target:sibling-with-prefix-name")
+    if any(ch in n for n in names for ch in "\\ .\u00e9"):
+        ctx.count("target:unusual-name-characters")
     if res["gone"] or res["gone_trees"] or any(c is None for c, _, _ in files.values()):
         ctx.count("unavailable-sources")
     if res["errs"]:
